@@ -17,8 +17,9 @@
 //     registered crisis invariant, a failed call changes nothing; every history ends with
 //     "everyone withdraws and undelegates everything", which must succeed.
 //
-// Two streams: "noself" never generates sender == recipient (everything else at full strength);
-// "self" includes it (known finding C11-1: the delegation is inflated).
+// Two streams: "noself" never generates sender == recipient; "self" includes it in 20-25% of the transfers
+// (since commit 458669b the precompile refuses it; the monitor requires that nothing changes).
+// The histories in /verif/corpus/C11 (replays of finding C11-1) are run first.
 package main
 
 import (
@@ -26,6 +27,7 @@ import (
 	"fmt"
 	"math/big"
 	"os"
+	"path/filepath"
 	"sort"
 	"strings"
 	"time"
@@ -604,6 +606,11 @@ func (w *World) monitor(o Op, before, after Snap, balBefore map[int]*big.Int, pe
 		if v.sumDels().Cmp(v.Shares) != 0 {
 			add("sum-shares", "validator %d: sum of delegations %s != validator shares %s", i, v.sumDels(), v.Shares)
 		}
+		for _, d := range v.Dels {
+			if d.N.Sign() <= 0 {
+				add("empty-delegation", "validator %d: account %d has a delegation record with %s shares", i, d.ID, d.N)
+			}
+		}
 		for _, h := range v.Hist {
 			if h[1] > 2 {
 				add("refcount-gt-2", "validator %d: historical rewards of period %d have reference count %d", i, h[0], h[1])
@@ -660,8 +667,14 @@ func (w *World) monitor(o Op, before, after Snap, balBefore map[int]*big.Int, pe
 			}
 		}
 		if from == to {
-			if bv.del(from).Cmp(av.del(from)) != 0 {
-				add("self-transfer", "transfer of %s shares to oneself changed the delegation %s -> %s", o.X, bv.del(from), av.del(from))
+			// an accepted transfer to oneself has to leave every delegation as it was
+			for _, d := range bv.Dels {
+				if av.del(d.ID).Cmp(d.N) != 0 {
+					add("self-transfer", "transfer of %s shares to oneself changed the delegation of %d: %s -> %s", o.X, d.ID, d.N, av.del(d.ID))
+				}
+			}
+			if len(av.Dels) != len(bv.Dels) {
+				add("self-transfer", "transfer of %s shares to oneself changed the set of delegations", o.X)
 			}
 		} else {
 			if d := new(big.Int).Sub(bv.del(from), av.del(from)); d.Cmp(x) != 0 {
@@ -756,6 +769,9 @@ func (w *World) monitor(o Op, before, after Snap, balBefore map[int]*big.Int, pe
 var fracs = []string{"10000000000000000", "50000000000000000", "333333333333333333", "1000000000000000", "100000000000000000", "70000000000000001"}
 
 func pickAmount(r *lib.Rand) *big.Int {
+	if r.Chance(2) {
+		return big.NewInt(0)
+	}
 	switch r.Intn(6) {
 	case 0:
 		return new(big.Int).Mul(big.NewInt(int64(1+r.Intn(5000))), one18)
@@ -808,6 +824,9 @@ func (w *World) gen(r *lib.Rand, s Snap, self bool) Op {
 	shareAmt := func(from int) *big.Int {
 		sh := s.Vals[v].del(from)
 		whole := new(big.Int).Quo(sh, one18)
+		if r.Chance(4) {
+			return big.NewInt(0) // zero shares: every share-denominated call but approve has to refuse it
+		}
 		switch r.Intn(8) {
 		case 0, 1:
 			if whole.Sign() > 0 {
@@ -1131,11 +1150,8 @@ func runHistory(h History, r *lib.Rand, n int) *result {
 			if res.failAt < 0 {
 				res.failAt = step
 			}
-			if !res.selfSeen {
-				// stop at the first failure that the known self-transfer defect cannot explain
-				cur = after
-				break
-			}
+			cur = after
+			break // stop at the first operation on which the property fails
 		}
 		cur = after
 	}
@@ -1222,10 +1238,6 @@ func main() {
 		seen := map[string]bool{}
 		for _, f := range res.fails {
 			sig := "C11:" + f.kind
-			if res.selfSeen {
-				// everything observed after an accepted sender == recipient transfer is attributed to it
-				sig = "C11:self-transfer:" + f.kind
-			}
 			if seen[sig] {
 				continue
 			}
@@ -1237,21 +1249,32 @@ func main() {
 		itemsBy[h.Stream] = append(itemsBy[h.Stream], res.coqCase(len(itemsBy[h.Stream]) < nFull))
 	}
 
-	// 0. the model's refutation witness (P_Shares.self_transfer_witness) replayed on the real app
-	wit := History{Seed: seed, NVals: 2, NAcc: 3, Stream: "self", Ops: []Op{
-		{K: "block", X: "0"},
-		{K: "delegate", V: 0, A: 0, X: "100000000000000000000", Via: "evm"},
-		{K: "block", X: "1000000000000000000"},
-		{K: "transfer", V: 0, A: 0, B: 0, X: "40"},
-	}}
-	wres := runHistory(wit, nil, 0)
-	report(wres)
-	if wres.selfSeen && len(wres.fails) > 0 {
-		last := wres.steps[len(wres.steps)-1].snap.Vals[0]
-		rep.Notes = append(rep.Notes, fmt.Sprintf("model witness replayed on the real precompile: delegate 100 FX (1e20 shares), transferShares(to = self, 40 shares) -> delegation 1e20 + %s shares, validator shares still %s (finding C11-1)",
-			new(big.Int).Sub(new(big.Int).Quo(last.del(0), one18), new(big.Int).Mul(big.NewInt(100), one18)), new(big.Int).Quo(last.Shares, one18)))
-	} else {
-		rep.Notes = append(rep.Notes, "model witness for the self-transfer defect did NOT reproduce on the real precompile")
+	// 0. corpus first: recorded histories (the replays of finding C11-1, fixed in 458669b). They run like
+	// any other history: model correspondence + monitor; every sender == recipient transfer in them must
+	// be refused now.
+	files, _ := filepath.Glob(filepath.Join("..", "corpus", "C11", "*.json"))
+	sort.Strings(files)
+	for _, f := range files {
+		b, err := os.ReadFile(f)
+		lib.Must(err)
+		var file struct {
+			Replay History `json:"replay"`
+		}
+		lib.Must(json.Unmarshal(b, &file))
+		file.Replay.Stream = "self"
+		cres := runHistory(file.Replay, nil, 0)
+		report(cres)
+		rep.Count("corpus")
+		nself, nacc := 0, 0
+		for _, st := range cres.steps {
+			if st.op.K == "transfer" && st.op.A == st.op.B || st.op.K == "transferFrom" && st.op.B == st.op.C {
+				nself++
+				if st.ok {
+					nacc++
+				}
+			}
+		}
+		rep.Notes = append(rep.Notes, fmt.Sprintf("corpus %s: %d transfers to oneself, %d accepted, %d monitor failures", filepath.Base(f), nself, nacc, len(cres.fails)))
 	}
 
 	for i := 0; i < nNoSelf+nSelf; i++ {
